@@ -232,7 +232,8 @@ def scenarios(tier):
                "expect": packet_expect("tcpsyn", target(net30, 31, [rng(80, 80)]), [[rng(80, 80)]], [2], 400)})
     # 9h'. a long reply followed by a frame that ends after the TCP ports (its IPv4 header promises a TCP header that is not there):
     # the second one is not a well-formed reply and yields nothing - in particular not the rest of the frame before it
-    long_reply = tcp_reply_opts(a(1), 80, 0x14, 0, 40)
+    long_reply = tcp_reply(a(1), 80, 0x14)
+    long_reply = long_reply[:14] + ip4(6, a(1), SRC, long_reply[34:] + [7] * 60)      # the same RST+ACK with 60 bytes of payload behind it
     cut = long_reply_cut = tcp_reply(a(0), 80, 0x14)[:38]
     sc.append({"name": "tcp-fin-truncated-after-long", "args": ["tcp", "fin", "--json", "-p", "80"] + COMMON + ["--exit-delay", "400ms", "10.9.3.0/31"], "files": {"empty": ""},
                "inject": [{"bytes": long_reply, "afterProbe": 1, "delayMs": 30}, {"bytes": cut, "afterProbe": 1, "delayMs": 40}, {"bytes": long_reply, "afterProbe": 1, "delayMs": 50}, {"bytes": cut, "afterProbe": 1, "delayMs": 60}],
@@ -326,9 +327,9 @@ def scenarios(tier):
     sc.append({"name": "arp-big-exclude-file", "args": ["arp", "--json", "--exclude", "{dir}/bigex", "--exit-delay", "300ms", "10.9.3.0/28"], "files": {"bigex": bigex},
                "expect": packet_expect("arp", target(net30, 28, exclude=[{"ip": [10, 9, 3, 4], "len": 30}, {"ip": [10, 9, 3, 9], "len": 32}]), [[]], [11], 300, srcip=[10, 9, 0, 1], dstmac=[255] * 6)})
     # 9y. more answering endpoints than the process may hold descriptors: every probe gives its connections back
-    sc.append({"name": "docker-fd-limit", "args": ["docker", "--json", "--proto", "http", "-p", "2375", "-w", "8", "10.200.0.0/25"], "servers": {"2375": "json"}, "ulimitN": 64, "maxMs": 30000,
+    sc.append({"name": "docker-fd-limit", "args": ["docker", "--json", "--proto", "http", "-p", "2375", "-w", "8", "10.200.0.0/25"], "servers": {"2375": "jsonka"}, "ulimitN": 64, "maxMs": 30000,
                "expect": dict(hexp(target([10, 200, 0, 0], 25, [rng(2375, 2375)]), 3, 128), scan="docker", hosts=True)})
-    sc.append({"name": "elastic-fd-limit", "args": ["elastic", "--json", "-p", "9200", "-w", "8", "10.200.0.0/25"], "servers": {"9200": "json"}, "ulimitN": 64, "maxMs": 30000,
+    sc.append({"name": "elastic-fd-limit", "args": ["elastic", "--json", "-p", "9200", "-w", "8", "10.200.0.0/25"], "servers": {"9200": "jsonka"}, "ulimitN": 64, "maxMs": 30000,
                "expect": dict(hexp(target([10, 200, 0, 0], 25, [rng(9200, 9200)]), 2, 128), hosts=True)})
     # 10. targets that are not IPv4 are refused before anything is sent
     for i, t in enumerate(["::1", "::ffff:10.9.3.1/126", "fe80::1/64", "10.9.3.1/33", "10.9.3"]):
